@@ -33,7 +33,8 @@ THEOREMS = ['C12_expand_shorthand', 'C12_interpolates_evenly_spaced',
             'C12_cell_card_zero_iff',
             'C12_plain_card_zero_iff', 'C12_conv_keys_not_skipped',
             'C12_written_volumes', 'C12_generated_converted_iff',
-            'C12_imp_card_text',
+            'C12_imp_card_text', 'C12_void_card_text',
+            'C12_nonvoid_card_text', 'C12_like_card_text',
             'C12_parse_deck_text_split']
 TRUSTED = [
     'hand-written model coq/C12/Model.v + Text.v (modelled, tied by '
